@@ -282,3 +282,7 @@ package hash
 
 //@ func (Hash).String mode int props C09 tags purego
 //@ assigns nothing
+
+//@ func ComputeSHA2_256 mode int props C09 tags purego
+//@ requires result != nil
+//@ assigns *result
